@@ -801,9 +801,11 @@ class Component(composites.Composite, metaclass=ComponentType):
             area = self.getArea()
 
         # change the densities
-        if wipe:
-            self.p.numberDensities = {}  # clear things not passed
-        self.p.numberDensities.update(numberDensities)
+        # build the new mapping first and assign it, so that a refused assignment (read-only
+        # parameters) changes nothing
+        newDensities = {} if wipe else dict(self.p.numberDensities)  # clear things not passed
+        newDensities.update(numberDensities)
+        self.p.numberDensities = newDensities
 
         # check if thermal expansion changed
         dLLnew = self.material.linearExpansionPercent(Tc=self.temperatureInC) / 100.0
